@@ -16,6 +16,7 @@
 From Coq Require Import ZArith List String.
 From BB Require Import Base.PyBase Gen.Encoders Spec.RV32 Spec.Operands Spec.Sem Model.Items Model.Passes
   Proofs.PseudoEmit Proofs.Pseudo.
+From BB Require Gen.Pseudo Proofs.PseudoTable.
 Import ListNotations.
 Open Scope Z_scope.
 Open Scope list_scope.
@@ -200,3 +201,19 @@ Example C05_ex_call_far : ex_run "call" ["T"] noimm [("T", 1050624)] 0 4096 [1; 
 Proof. vm_compute. reflexivity. Qed.
 Example C05_ex_tail_far_backwards : ex_run "tail" ["T"] noimm [("T", 0)] 1050624 1054720 [1; 6] = Some ([1001; 6144], 4096, 8).
 Proof. vm_compute. reflexivity. Qed.
+
+(* TIE of the templates to the source: the model's expand_pseudo (about which the theorems above speak) equals, for EVERY
+   name, argument list and parse result, the instantiation of the table that tools/units_pseudo.py REGENERATES from the AST of
+   asm.transform_pseudo_instructions on every run (Gen/Pseudo.v); likewise the 8-byte pessimistic size of li / call / tail.
+   An edit of a template in the source (operands swapped, another mnemonic, another threshold) breaks this obligation. *)
+Theorem C05_templates_from_source : forall l name args pimm,
+  expand_pseudo l name args pimm =
+  match assoc_str name Gen.Pseudo.pseudo_table with
+  | Some t => PseudoTable.instantiate t args pimm
+  | None => Fail (PAsm l)
+  end.
+Proof. exact PseudoTable.expand_pseudo_table. Qed.
+Print Assumptions C05_templates_from_source.
+Theorem C05_big_pseudos_from_source : forall name, is_big_pseudo name = mem_str name Gen.Pseudo.big_pseudos.
+Proof. exact PseudoTable.big_pseudo_table. Qed.
+Print Assumptions C05_big_pseudos_from_source.
